@@ -14,6 +14,9 @@ CONSTANTS
   CraftToks = {}
   MaxPresent = 2
   Calls = {"exchange", "client", "time", "deliver"}
+  HealRounds = 0
+  HealDt = 250
+  Bound = 0
   PropsOn <- P_LIVE
   Export = TRUE
   ExportAll = FALSE
